@@ -619,6 +619,11 @@ func ruleTermination(w *World, r *Report, pfx string) {
 						continue
 					}
 					if w.reachNoGo([]*ssa.Function{c})[f] {
+						if site.Common().StaticCallee() != nil && !w.staticReach(c)[f] {
+							// the cycle closes only through a dynamic call on a wrapped value
+							r.Holds(rule+"r", "recursion "+fnShort(f)+" -> "+fnShort(c), w.instrPos(in), "T4: the cycle closes only through a dynamic call on a wrapped value (delegation); nesting is finite by data")
+							continue
+						}
 						if f == unwrap && c == unwrap {
 							r.Holds(rule+"r", "recursion "+fnShort(f), w.instrPos(in), "T4: recursion through Wrapper.Unwrap only, finite by data")
 						} else if site.Common().StaticCallee() == nil {
@@ -632,7 +637,6 @@ func ruleTermination(w *World, r *Report, pfx string) {
 		}
 	}
 }
-
 
 // ---------------------------------------------------------------------------------------------
 // index coverage: does a loop visit every index of a slice exactly once, and in which direction?
@@ -794,4 +798,31 @@ func (w *World) loopIndexWalk(l *loopInfo, slice ssa.Value) indexWalk {
 	out := indexWalk{OK: true, Ascending: idx.b*step > 0}
 	out.CoversAll = (isZero(first) && isTop(lastI)) || (isTop(first) && isZero(lastI))
 	return out
+}
+
+// staticReach: functions reachable from fn through static calls only.
+func (w *World) staticReach(fn *ssa.Function) map[*ssa.Function]bool {
+	seen := map[*ssa.Function]bool{}
+	stack := []*ssa.Function{fn}
+	for len(stack) > 0 {
+		f := stack[len(stack)-1]
+		stack = stack[:len(stack)-1]
+		if seen[f] || f.Blocks == nil {
+			continue
+		}
+		seen[f] = true
+		for _, b := range f.Blocks {
+			for _, in := range b.Instrs {
+				if ci, ok := in.(ssa.CallInstruction); ok {
+					if _, isGo := in.(*ssa.Go); isGo {
+						continue
+					}
+					if sc := ci.Common().StaticCallee(); sc != nil && !seen[sc] {
+						stack = append(stack, sc)
+					}
+				}
+			}
+		}
+	}
+	return seen
 }
